@@ -85,6 +85,7 @@ def segsExpr : Expr → List Seg
   | .regexMap labels re id => regexMapSegs labels re id
   | .mapDrop m ps => [.raw (b "mapFilter((k,v) -> ")] ++ joinS (b " and ") (ps.map dropClauseSegs) ++ [.raw (b ", ")] ++ segsExpr m ++ [.raw (b ")")]
   | .labelsFp => [.raw (b labelsFpText)]
+  | .quantileAgg units scale col => [.raw (b "quantile(" ++ b (fixedText units scale) ++ b ")(" ++ b col ++ b ")")]
 def segsSels : List Sel → List (List Seg)
   | [] => []
   | s :: ss => segsSel s :: segsSels ss
